@@ -195,6 +195,7 @@ inline std::vector<OpRange> op_ranges() {
 #undef RXH_R
 	return v;
 }
+inline std::string optype_of(int opcode) { static const std::vector<OpRange> R = op_ranges(); for (auto& r : R) if (opcode >= r.lo && opcode < r.hi) return r.name; return "NOP"; }
 inline int op_of(const char* name) { for (auto& r : op_ranges()) if (!strcmp(r.name, name)) return r.lo; fprintf(stderr, "rxh: no opcode for %s\n", name); exit(2); }
 
 // imm32 boundary sets (DESIGN.md appendix A). quick=B0, thorough=B.
